@@ -58,3 +58,22 @@ claim("C13", "E1", "exploration",
       "All ordered selections of 1-3 of 5 overlapping scopes x 4 deny lists x 3 allow lists, queried with every boundary address of every prefix in IPv4, IPv6 and IPv4-mapped form and a non-TCP address: the real Loader.Get must agree with the model on refuse/serve and on the bound key; "
       "through the full server a refused connection sees Close with no bytes and no handler, a served one is answered under the bound scope's key and users of other scopes do not exist.",
       "prefix shapes outside the five scopes and the listed filters are not explored", "3/C13")
+claim("C07", "E3", "model_checking",
+      "explicit enumeration of packet histories on the full reference server with a per-request accepted/rejected oracle from the connection-loop model",
+      "All histories up to depth 3 (4 on a reduced alphabet in the thorough tier) over ~85 abstract packets covering every AAA path of the reference handlers, sequence-number abuses and rejected header forms, under working and failing keychains: "
+      "each accepted request must cause exactly one handler invocation, one Reply call and one packet (none for 255); each rejected request no handler, at most one packet and a close.",
+      "accept/reject from mc/ref/connmodel.go with the continuation registration observed; histories deeper than the bound, more than two session ids not explored", "3/C07")
+claim("C10", "E3", "model_checking",
+      "explicit enumeration of authentication histories on the full reference server against an independent credential oracle",
+      "All histories up to depth 3 over ASCII/PAP logins of nine user shapes, CONTINUE packets carrying every user name and password, aborts, fillers and the type-confusable packet, on connections of both scopes, plus the full START product: "
+      "a PASS must be justified by the credential condition evaluated independently (scope membership, authenticator resolution, bcrypt), and every well-formed login that meets it must PASS.",
+      "bcrypt.CompareHashAndPassword is trusted; histories deeper than 3 and more than two session ids are not explored", "3/C10")
+claim("C14", "E3", "model_checking",
+      "exhaustive enumeration of (configuration, prefix history, hostile packet mutation) cases in crash-isolating worker subprocesses with write-ahead replay",
+      "Every truncation, single-octet corruption, header corruption and lying length of 14 representative packets after state-reaching prefixes, ~100 packet kinds against every odd user/authenticator/accounter/policy shape under three keychain behaviours, and all short raw junk: "
+      "the worker must survive and control connections opened before and after the hostile one must still be served.",
+      "inputs outside the mutation alphabet and concurrent hostile clients are not explored; proxy framing only in the thorough tier", "3/C14")
+claim("C18", "E3", "model_checking",
+      "explicit enumeration of authentication histories with token passwords against a recording logger (information-flow oracle on every log call)",
+      "The C10 histories and the full START product are replayed with every password and shared secret replaced by a unique token; after every packet no watched token may occur in a formatted message, an unobscured record value, a field selected for retention, or a logged reply.",
+      "substring search for tokens; the logger seam is the handlers' loggerProvider interface", "3/C18")
